@@ -125,6 +125,7 @@ PBT_PROPERTY(small_scope) {
         }
         run_cfg0(0, false, keys, true, true, st);
     }
+    pbt::count(hi - lo); // tuples enumerated by this chunk (each with every rank)
     if (st.cut_multi) pbt::nontrivial();
     pbt::label("small_scope_chunk");
 }
